@@ -52,7 +52,7 @@ CLAIMED["C04"] = dict(
     design_ref="§4 C04")
 CLAIMED["C06"] = dict(
     category="model_checking", engine="enum",
-    text="Two networks A and B on one database through the production contextualizer seam; B is seeded with a small graph that shares object/subject strings with A plus B-only strings. BFS over histories in A (C04's 56-operation alphabet incl. gRPC delete with an empty query) to depth 3 (thorough 5). After every transition B's observation vector (~105 list/check/expand requests over REST and gRPC) must be unchanged and no observation in A may contain a B-only string; a statement monitor on the SQL driver checks that every statement issued for A on keto_relation_tuples binds A's network id and never B's.",
+    text="Two networks A and B on one database through the production contextualizer seam; B is seeded with a small graph that shares object/subject strings with A plus B-only strings. BFS over histories in A (C04's 56-operation alphabet incl. gRPC delete with an empty query) to depth 3 (thorough 5). After every transition B's observation vector (~105 list/check/expand requests over REST and gRPC) must be unchanged and no observation in A may contain a B-only string; a statement monitor on the SQL driver checks that every statement issued for A on keto_relation_tuples binds A's network id and never B's. The zero-UUID network is a third tenant (requests that carry uuid.Nil as network id must be scoped like any other); cross-network concurrent pairs: an operation in A is paused at every SQL statement boundary while B's observation vector is taken.",
     note="SQLite only; keto_uuid_mappings has no nid column (ids are UUIDv5 of network id and string) so the monitor there checks that no statement binds B's nid or a UUIDv5(B, s).",
     technique="explicit-state BFS over histories in one tenant with an invariant on the other tenant's observables + SQL statement monitor",
     design_ref="§4 C06")
